@@ -495,6 +495,8 @@ pub fn gen_random(r: &mut Rng, n: usize) -> History {
                 // exactly the same input as one of the last few conversions
                 if !recent.is_empty() {
                     let x = *r.pick(&recent);
+                    // ... or a few ulps away from it (the same microvolt, different bits)
+                    let x = if r.chance(0.4) && x.is_finite() && x != 0.0 { f32::from_bits((x.to_bits() as i64 + r.below(7) as i64 - 3).max(1) as u32) } else { x };
                     ops.push(Op::Convert(x));
                 }
             }
